@@ -269,7 +269,7 @@ func arithS(g *G, bin, un []string, qs bool) {
 			g.emit(mkA(op, c, x, y, 0, "", fresh), op)
 		}
 	})
-	n := g.pick(40000, 2000000)
+	n := g.pick(40000, 500000)
 	total = len(vs) * len(vs) * len(cs)
 	walk(g.R, total, n, func(i int) {
 		c := cs[i%len(cs)]
@@ -312,7 +312,7 @@ func gcd(a, b int) int {
 
 // arithL: the large seeded domain.
 func arithL(g *G, ops []string) {
-	n := g.pick(9000, 400000)
+	n := g.pick(9000, 250000)
 	for i := 0; i < n; i++ {
 		c := g.R.randCtxL(40)
 		span := 30
@@ -382,7 +382,7 @@ func (r *Rand) perturb(x Dec) Dec {
 // of the aligned operands) is kept within a few times the precision, with a
 // tail up to 150.
 func arithLInt(g *G, ops []string) {
-	n := g.pick(6000, 300000)
+	n := g.pick(6000, 150000)
 	for i := 0; i < n; i++ {
 		c := g.R.randCtxL(30)
 		x := g.R.randL(c.P, 20)
